@@ -511,7 +511,10 @@ impl TypeChecker {
             .resolve_name(name.scope, &ident, false)
             .is_none()
         {
-            return Err(format!("Cannot import `{}`: no such item", name.ident));
+            return Err(format!(
+                "Cannot import `{}`: no such item",
+                name.ident
+            ));
         }
 
         if self
